@@ -388,7 +388,7 @@ __strpd_card(struct strpd_s *d, const char *sp, struct dt_spec_s s, char **ep)
 		break;
 	case DT_SPFL_N_DCNT_YEAR:
 		/* was %D and %j, cannot be used at the moment */
-		if ((d->d = strtoi_lim(sp, &sp, 1, 366)) >= 0) {
+		if ((d->d = padstrtoi_lim(sp, &sp, 1, 366)) >= 0) {
 			res = 0;
 			d->flags.d_dcnt_p = 1;
 		}
